@@ -67,3 +67,28 @@ def child(gate, path):
         time.sleep(30)
         os._exit(98)
     raise RuntimeError('unknown path %r' % (path,))
+
+
+def seq_child(d, idx, path, life):
+    """child of a `seq` history: runs until the parent creates <d>/gate<idx>, then ends by
+    `path`.  When the parent creates <d>/close<idx> the child closes every inherited
+    descriptor above stderr (among them its end of the sentinel pipe, as a daemonising or
+    closerange-happy target would), acknowledges with <d>/closed<idx> and goes on running;
+    it then ends by itself `life` seconds later at the latest, so that a parent blocked in
+    waitpid gets away."""
+    gate = os.path.join(d, 'gate%d' % idx)
+    cue = os.path.join(d, 'close%d' % idx)
+    t0 = time.time()
+    closed_at = None
+    while not os.path.exists(gate):
+        now = time.time()
+        if closed_at is None and os.path.exists(cue):
+            os.closerange(3, 1024)
+            open(os.path.join(d, 'closed%d' % idx), 'w').close()
+            closed_at = now
+        if closed_at is not None and now - closed_at > life:
+            break
+        if now - t0 > 30:
+            os._exit(99)
+        time.sleep(0.002)
+    child(None, path)
